@@ -407,6 +407,49 @@ func init() {
 	intrinsics["reflect.ValueOf"] = func(it *Interp, fr *frame, args []Value) Value {
 		return it.reflectValue(args[0].(Iface))
 	}
+	// sort.Slice / sort.SliceStable / sort.SliceIsSorted: the sorting algorithm is interpreted from
+	// source; only the length and the element swapper come from reflectlite
+	intrinsics["internal/reflectlite.ValueOf"] = func(it *Interp, fr *frame, args []Value) Value {
+		return it.reflectValueOf("internal/reflectlite", args[0].(Iface))
+	}
+	intrinsics["(internal/reflectlite.Value).Len"] = func(it *Interp, fr *frame, args []Value) Value {
+		x, ok := reflectPayload(args[0])
+		if !ok {
+			it.goPanicf(fr, "reflect: call of reflect.Value.Len on zero Value")
+		}
+		switch v := x.v.(type) {
+		case Str:
+			return mkConst(64, uint64(len(v.b)))
+		case Slice:
+			return mkConst(64, uint64(len(v.a)))
+		case ArrayV:
+			return mkConst(64, uint64(len(v.a)))
+		}
+		it.goPanicf(fr, "reflect: call of reflect.Value.Len on %s Value", x.t.name)
+		return nil
+	}
+	swapper := func(it *Interp, fr *frame, args []Value) Value {
+		x, _ := args[0].(Iface)
+		sl, ok := x.v.(Slice)
+		if !ok {
+			it.goPanicf(fr, "reflect: call of Swapper on a non-slice value")
+		}
+		return FuncV{native: func(it *Interp, fr *frame, a []Value) Value {
+			i := int(it.concreteInt(fr, termArg(a[0]), "swapper index"))
+			j := int(it.concreteInt(fr, termArg(a[1]), "swapper index"))
+			if i < 0 || j < 0 || i >= len(sl.a) || j >= len(sl.a) {
+				it.goPanicf(fr, "reflect: slice index out of range")
+			}
+			vi, vj := copyVal(sl.a[i]), copyVal(sl.a[j])
+			pi := Ptr{cell: &sl.a[i], obj: sl.obj}
+			it.storeCell(fr, pi, pi.cell, vj)
+			pj := Ptr{cell: &sl.a[j], obj: sl.obj}
+			it.storeCell(fr, pj, pj.cell, vi)
+			return nil
+		}}
+	}
+	intrinsics["internal/reflectlite.Swapper"] = swapper
+	intrinsics["reflect.Swapper"] = swapper
 	intrinsics["(reflect.Value).IsValid"] = func(it *Interp, fr *frame, args []Value) Value {
 		_, ok := reflectPayload(args[0])
 		return mkBool(ok)
@@ -971,10 +1014,13 @@ func (it *Interp) rtypeArg(fr *frame, v Value) *TInfo {
 }
 
 // reflectValue builds a reflect.Value whose ptr field addresses a cell holding the boxed interface.
-func (it *Interp) reflectValue(x Iface) Value {
-	pkg := it.p.prog.ImportedPackage("reflect")
+func (it *Interp) reflectValue(x Iface) Value { return it.reflectValueOf("reflect", x) }
+
+// reflectValueOf builds the Value struct of package reflect or internal/reflectlite (same layout).
+func (it *Interp) reflectValueOf(pkgPath string, x Iface) Value {
+	pkg := it.p.prog.ImportedPackage(pkgPath)
 	if pkg == nil || pkg.Type("Value") == nil {
-		it.abort("unmodelled", "package reflect not loaded")
+		it.abort("unmodelled", "package "+pkgPath+" not loaded")
 	}
 	sv := it.zero(it.p.tt.Of(pkg.Type("Value").Type())).(StructV)
 	if x.t == nil {
